@@ -51,7 +51,7 @@ CLAIMED = {
    text="All sequences up to length 5 (6 in thorough) over Set/Get/Delete x 3 keys, clock advance and Close for every policy, capacities 1-3 (and TinyLFU at 99/100/101/200) with and without expiry, plus long random sequences at capacities on both sides of every internal threshold, synchronous and asynchronous; presence is owned by the callbacks, victims checked for LRU/LFU/SLRU (SLRU: any split into two non-empty segments); clock steps of whole and fractional seconds. Plus runs across several TinyLFU sample periods and a concurrent Get/Set/Delete part with run-unique values.",
    note="Delete callbacks 0 or 1, sliding expiry tolerated, TinyLFU victims and capacity 0 not asserted", ref="3/C15"),
  "C16": dict(level="exploration", engine="E3-delay", technique="stateful PBT (sequential) + preemption-bounded schedule sampling (concurrent) with a tracking SecretFactory; oracle: held sessions work, same-session sharing, exactly-once teardown",
-   text="Session cache of size 1-3 with every policy and short expiry: generated histories and concurrent workloads hold sessions across evictions and expiry, use them afterwards, and finally close everything; delay plans (random and every reachable site of session_cache.go / cache.go as single preemption) vary the schedule. Plus session caches of capacity 100/101, a hot partition got and closed by many goroutines while held, and a watchdog on every call.",
+   text="Session cache of size 1-3 with every policy and short expiry: generated histories and concurrent workloads hold sessions across evictions and expiry, use them afterwards, and finally close everything; delay plans (random and every reachable site of session_cache.go / cache.go as single preemption) vary the schedule. Plus session caches of capacity 100/101, a hot partition got and closed by many goroutines while held, a watchdog on every call, and 20 000 (thorough: 200 000) distinct partition ids live in one session cache, each of which must get its own session.",
    note="schedules are sampled; which session a bounded policy evicts is not asserted", ref="3/C16"),
  "C17": dict(level="fault_enumeration", engine="aws-kms-fakes", technique="exhaustive enumeration of regional failure subsets over fake regional KMS endpoints; oracle from the endpoints' call logs (truth table)",
    text="For 1-3 regions (4 in thorough; up to 6 with a reduced enumeration), keys configured by key ARN and by alias ARN, every preferred region, every subset failing GenerateDataKey / Encrypt at wrap and Decrypt / wrong-bytes at unwrap, wrapper and unwrapper each in {v1, v2}: success conditions, envelope contents, preferred-first order, at-most-once and stop-at-first-success are checked from the call log.",
